@@ -65,7 +65,7 @@ func c12ReplaceRefresh(c *Ctx) {
 			}
 		}
 	}
-	c.Floor("replace.refresh sites", n, 5, "Attribute.setName, Block.SetType, three attribute setters")
+	c.Floor("replace.refresh sites", n, 3, "Attribute.setName, Block.SetType, three attribute setters")
 }
 
 // R2: children list and items set move together.
@@ -261,7 +261,7 @@ func c12Constructors(c *Ctx) {
 				"constructor of "+tn+" leaves handle(s) "+strings.Join(missing, ", ")+" unset: accessors dereference a nil node")
 		}
 	}
-	c.Floor("constructors", n, 4, "Attribute.init, parseAttribute, Block.init, parseBlock")
+	c.Floor("constructors", n, 2, "Attribute.init, parseAttribute, Block.init, parseBlock")
 }
 
 // R4: mirror symmetry of the doubly linked list primitives.
